@@ -254,6 +254,36 @@ def shadow_module(rng):
     return ('module', [ax], claims, [pf], [])
 
 
+def same_print_module(rng):
+    """family: DIFFERENT patterns that PRINT alike — `str` of a metavariable is `phi<n>` whatever its constraint lists are — used
+    side by side in one theory, each of them more than once (so the counting pre-pass suggests them for memoisation): the axioms
+    `phi_k -> ∃x.phi_k` with `phi_k` x-fresh and `(∃x.phi_k) -> phi_k` without the constraint (and positive / negative variants
+    under `mu`).  A memoiser that recognises saved patterns by name publishes one of them for the other."""
+    k = rng.choice((0, 1, 2))
+    x = rng.choice(gen.IDS)
+    plain = ('mv', k, (), (), (), (), ())
+    r = rng.random()
+    if r < 0.5:
+        tight = ('mv', k, (x,), (), (), (), ())
+        a1 = ('imp', tight, ('ex', x, tight))
+        a2 = ('imp', ('ex', x, plain), plain)
+    elif r < 0.75:
+        tight = ('mv', k, (), (x,), (), (), ())
+        a1 = ('imp', tight, ('app', ('sym', 0), tight))
+        a2 = ('imp', ('app', ('sym', 0), plain), plain)
+    else:
+        tight = ('mv', k, (), (), (x,), (), ())
+        a1 = ('imp', ('mu', x, tight), tight)
+        a2 = ('imp', plain, ('app', plain, ('sym', 1)))
+    axioms = [a1, a2] if rng.random() < 0.5 else [a2, a1]
+    proofs = [('axiom', a) for a in (axioms if rng.random() < 0.5 else axioms[::-1])]
+    try:
+        claims = [conc(pf) for pf in proofs]
+    except pt.Raise:
+        return gen_module(rng, 1)
+    return ('module', axioms, claims, proofs, [])
+
+
 # ---- the propositional fragment (Pi2/ModulePF.lean: NPat.PF, Pf.PF) ------------------------------------------------
 
 BOT = ('inst', ('mu', 0, ('svar', 0)), ())
